@@ -169,8 +169,9 @@ def run(ctx):
             bm = bmaps[(k // 4) % 4]
             boundary = M.boundary_bytes(M.BND, bm)
             syms = body_symbols(f, pre)
-            body = M.conc_seq(syms, variant, bm)
-            want = M.expected_items(f, variant, bm)
+            hv = (k // 3) % 3
+            body = M.conc_seq(syms, variant, bm, hv)
+            want = M.expected_items(f, variant, bm, hv=hv)
             chs = M.chunkings(body, rnd, extra=3 if ctx.tier == "quick" else 8, max_splits=12 if ctx.tier == "quick" else 60)
             for ci, ch in enumerate(chs):
                 for which in (("sync", "async", "wsgi", "asgi") if ci < 3 else (("sync", "asgi") if ci % 2 else ("async", "wsgi"))):
